@@ -109,7 +109,22 @@ func runC18(c *Ctx) {
 			}
 			trueRets = append(trueRets, r)
 		}
-		c.RequireGate("C18.1-self-filter", isResp, idEqAcc(true), trueRets, "return true")
+		// `return slices.ContainsFunc(members, isSelf)`: the answer is computed; true must imply the test held
+		gTrue := idEqAcc(true)
+		var rest []ssa.Instruction
+		for _, r := range trueRets {
+			v := r.(*ssa.Return).Results[0]
+			if _, isConst := v.(*ssa.Const); !isConst && gTrue.ImpliedBy(v, true, isResp) {
+				continue
+			}
+			rest = append(rest, r)
+		}
+		if len(rest) == 0 && len(trueRets) > 0 {
+			c.Fn(FuncName(isResp))
+			c.Hold("C18.1-self-filter", FuncName(isResp)+"|"+gTrue.Name+"|return true", p.Pos(isResp.Pos()), "the answer is computed from the test: it is true only when some member's id equals accountId")
+		} else {
+			c.RequireGate("C18.1-self-filter", isResp, gTrue, trueRets, "return true")
+		}
 	}
 	{
 		// ReplKey: suffix after the last dot
@@ -187,15 +202,54 @@ func runC18(c *Ctx) {
 		cfgPC := p.Field("github.com/anyproto/go-chash:Config.PartitionCount")
 		cfgRF := p.Field("github.com/anyproto/go-chash:Config.ReplicationFactor")
 		okPC, okRF := false, false
-		for _, w := range FieldWrites([]*ssa.Function{conv}, cfgPC) {
-			if k, isK := w.Val.(*ssa.Const); isK && k.Value.ExactString() == constVal(p, ncPkg, "PartitionCount") {
-				okPC = true
+		// (the ring construction may sit in a helper new since the anchor snapshot, taking the
+		// factor as a parameter: the constants are then the arguments of its calls)
+		region := regionFuncs(conv)
+		constsOf := func(v ssa.Value) []string {
+			if k, isK := v.(*ssa.Const); isK && k.Value != nil {
+				return []string{k.Value.ExactString()}
+			}
+			pm, isPm := v.(*ssa.Parameter)
+			if !isPm {
+				return nil
+			}
+			var out []string
+			for _, f := range region {
+				for _, ci := range CallsIn(f) {
+					if CalleeFunc(ci.Common()) != pm.Parent() {
+						continue
+					}
+					for i, hp := range pm.Parent().Params {
+						if hp == pm && i < len(ci.Common().Args) {
+							if k, isK := ci.Common().Args[i].(*ssa.Const); isK && k.Value != nil {
+								out = append(out, k.Value.ExactString())
+							} else {
+								out = append(out, "?")
+							}
+						}
+					}
+				}
+			}
+			return out
+		}
+		nPC, badPC := 0, false
+		for _, w := range FieldWrites(region, cfgPC) {
+			vs := constsOf(w.Val)
+			if len(vs) == 0 {
+				badPC = true
+			}
+			for _, s := range vs {
+				nPC++
+				if s != constVal(p, ncPkg, "PartitionCount") {
+					badPC = true
+				}
 			}
 		}
+		okPC = nPC > 0 && !badPC
 		rfVals := map[string]bool{}
-		for _, w := range FieldWrites([]*ssa.Function{conv}, cfgRF) {
-			if k, isK := w.Val.(*ssa.Const); isK {
-				rfVals[k.Value.ExactString()] = true
+		for _, w := range FieldWrites(region, cfgRF) {
+			for _, s := range constsOf(w.Val) {
+				rfVals[s] = true
 			}
 		}
 		okRF = rfVals[constVal(p, ncPkg, "ReplicationFactor")]
@@ -218,12 +272,15 @@ func runC18(c *Ctx) {
 		// accountId readers
 		allowed := map[string]bool{"NodeIds": true, "IsResponsible": true}
 		for _, r := range FieldReads(p.FuncsOfPkg(ncPkg), accF) {
-			n := TopFunc(r.Parent()).Name()
-			c.Check(allowed[n], "C18.3-viewpoint-independence", FuncName(r.Parent())+"|reads nodeConf.accountId", p.Pos(InstrPos(r)), "the participant's own id influences only the self filters, never which nodes are responsible")
+			ok := allowedVia(p, r.Parent(), func(f *ssa.Function) bool { return allowed[f.Name()] })
+			c.Check(ok, "C18.3-viewpoint-independence", FuncName(r.Parent())+"|reads nodeConf.accountId", p.Pos(InstrPos(r)), "the participant's own id influences only the self filters, never which nodes are responsible")
 		}
 		// installed before publishing
 		setLast := f("(*service).setLastConfiguration")
+		setLastTop := setLast
 		lastF := p.Field(ncPkg + ":service.last")
+		setLast = descendToWrites(setLast, lastF) // the locked half may have been split off
+		c.Fn(FuncName(setLast))
 		var pubs []ssa.Instruction
 		for _, w := range FieldWrites([]*ssa.Function{setLast}, lastF) {
 			pubs = append(pubs, w.Instr)
@@ -245,7 +302,7 @@ func runC18(c *Ctx) {
 		}
 		c.Check(!bad, "C18.3-account-id-installed", FuncName(setLast)+"|accountId before publish", p.Pos(setLast.Pos()), "the new nodeConf receives service.accountId before it becomes service.last")
 		for _, w := range FieldWrites(p.FuncsOfPkg(ncPkg), lastF) {
-			c.Check(TopFunc(w.Fn) == setLast, "C18.3-account-id-installed", FuncName(w.Fn)+"|service.last writer", p.Pos(InstrPos(w.Instr)), "service.last is published only by setLastConfiguration")
+			c.Check(effectiveOwner(p, w.Fn) == setLastTop, "C18.3-account-id-installed", FuncName(w.Fn)+"|service.last writer", p.Pos(InstrPos(w.Instr)), "service.last is published only by setLastConfiguration")
 		}
 		// Init: service.accountId assigned before any path can install a configuration
 		initFn := f("(*service).Init")
@@ -258,7 +315,7 @@ func runC18(c *Ctx) {
 			fa, ok := st.Addr.(*ssa.FieldAddr)
 			return ok && FieldOf(fa) == sAcc
 		}
-		installs := CallSinks(initFn, CalleeFn(setLast, f("(*service).saveAndSetLastConfiguration"), f("(*service).updateConfiguration")), false)
+		installs := CallSinks(initFn, CalleeFn(setLastTop, f("(*service).saveAndSetLastConfiguration"), f("(*service).updateConfiguration")), false)
 		r2 := Reach(initFn, ReachOpts{Cut: isSAccStore})
 		bad2 := ""
 		for _, in := range installs {
